@@ -180,7 +180,7 @@ func init() {
 		Gen: func(tier string, emit func(interface{})) {
 			vec := run.Flavour == "vec"
 			enum.AllFamilies(tier, vec, func(b enum.AnyBatch) {
-				if vec && b.Vec == nil && b.Syn == nil {
+				if vec && b.Vec == nil && b.Syn == nil && b.Big == nil {
 					return // the vectors-tag stage adds the vector and synonym families only
 				}
 				bb := b
@@ -190,6 +190,7 @@ func init() {
 			tb.maxLen1 = 2
 			if tier == "quick" {
 				tb.modes = []uint32{1026}
+				tb.d2Modes = nil
 			}
 			if vec {
 				genMerges("vec", mergeBounds{maxLen1: 2, modes: []uint32{1026}, depth2: tier != "quick", d2Menu: []int{0, 1}, fullDrops: true}, func(c enum.MergeCase) {
